@@ -31,10 +31,20 @@ R2-R7 are decided on CLOSED VALUES (class Values): a returned component is
     exit 2; a recognised value of the wrong kind in a slot is a violation.
 R2  degenerate-segment share (T-GUARD): every integrated output is
     repeat(value, COUNT) × SHARE with SHARE = PIECE / WHOLE guarded EXACTLY on
-    WHOLE != 0 (np.divide(out=, where=) or np.where), default ONE where WHOLE is
-    zero (a zero-length segment has exactly one piece, so its share is 1); a
-    guard on the numerator, a tolerance, a default other than one or an
-    unguarded quotient is reported.
+    WHOLE != 0 (np.divide(out=, where=) -- also as a statement writing into a
+    local -- or np.where with the quotient in either arm), default ONE where
+    WHOLE is zero (a zero-length segment has exactly one piece, so its share is
+    1).  The guard is decided by its truth table, not its spelling: the mask
+    (any combination of & | ~ logical_and/or/not, comparisons, abs, isclose,
+    minimum/maximum, products, a test made before the expansion) is evaluated
+    on every kind of element -- WHOLE and PIECE each zero / tiny / ordinary, the
+    piece no longer than the whole -- and must agree with WHOLE != 0 on all of
+    them.  A mask that also tests the numerator (conjunction, product, minimum)
+    is stricter: pieces of zero length get share 1 and their segment is counted
+    again; a tolerance, a looser mask (division by zero), a default other than
+    one or an unguarded quotient is reported likewise.  A share spelt in some
+    other way over the same two length arrays (safe denominator, nan_to_num) is
+    decided as a function of its elements against PIECE / WHOLE | 1.
 R3  one repetition vector (T-AGREE): COUNT is the number of cells per segment
     (non-NaN cell indices per row, or non-NaN points per row − 1); values,
     WHOLE and the joint positions use that vector; PIECE = lengths between
@@ -116,6 +126,14 @@ def _root_name(e):
 # on the CFG, both arms of conditional expressions), so a claim about the result holds on every path.
 # Forms that are not understood raise Undecided (never guessed).
 # ---------------------------------------------------------------------------------------------------------------
+
+def out_rebinding(s):
+    """name of the local X when statement s is `ufunc(..., out=X)` on its own: X then holds the value of that call (with the
+    elements the call leaves alone taken from what X held before), which is how the statement is read"""
+    if isinstance(s, ast.Expr) and isinstance(s.value, ast.Call) and isinstance(kwarg(s.value, 'out'), ast.Name):
+        return kwarg(s.value, 'out').id
+    return None
+
 
 class Undecided(Exception):
     pass
@@ -249,10 +267,17 @@ class SeqView:
                 for a in s.names:
                     kill.add((a.asname or a.name).split('.')[0])
             heads = [s]
+            ob = out_rebinding(s)
+            if ob is not None:
+                kill.add(ob)
         for h in heads:
             for x in walk_no_nested(h):
                 if isinstance(x, ast.NamedExpr):
                     kill.add(x.target.id)
+                if isinstance(x, ast.Call) and kwarg(x, 'out') is not None:
+                    r = _root_name(kwarg(x, 'out'))     # ufunc(..., out=local): the local is written in place
+                    if r:
+                        gen.add(r)
                 if isinstance(x, ast.Call) and isinstance(x.func, ast.Attribute) and x.func.attr in MUTATING_METHODS:
                     r = _root_name(x.func.value)
                     if r:
@@ -1098,6 +1123,8 @@ class Values:
             return True
         if any(isinstance(x, ast.NamedExpr) and x.target.id == name for x in walk_no_nested(d)):
             return True
+        if out_rebinding(d) == name:
+            return True
         return None
 
     def _name(self, fi, n, at, bound, stack, depth, plain_only=None):
@@ -1171,6 +1198,8 @@ class Values:
         for x in walk_no_nested(d):
             if isinstance(x, ast.NamedExpr) and x.target.id == name:
                 return self.close(fi, x.value, d, frozenset(), stack, depth + 1)
+        if out_rebinding(d) == name:
+            return self.close(fi, d.value, d, frozenset(), stack, depth + 1)      # `out=name` closes to what it held before
         return None
 
     @staticmethod
@@ -2115,10 +2144,12 @@ def same_value(a, b):
     return same(a, b) or same(_Counts().visit(tcopy(a)), _Counts().visit(tcopy(b)))
 
 
-def guard_verdict(W, D, N=None, nonneg=False):
-    """(ok, why): the mask `W` of a guarded division is the exact test `D != 0` on the denominator `D` (`nonneg`: the
-    denominator is a length, never negative, so `> 0` is the same test)"""
+def guard_verdict(W, D, N=None, nonneg=False, n_nonneg=False, O=None, piece=False):
+    """(ok, why): the mask `W` of a guarded division `N / D where W else O` is the exact test `D != 0` on the denominator
+    `D`, or a mask with the same truth value on every element (`nonneg` / `n_nonneg`: the denominator / numerator is a
+    length, never negative, so `> 0` is the same test; `piece`: the numerator is a part of the denominator)"""
     exact = 'the division is skipped exactly where the denominator is zero'
+    D = _under_safe_denominator(D)
     tol = (f'the guard `{show(W, 60)}` is not the exact test `{show(D, 40)} != 0`: with a tolerance, a segment whose '
            'denominator is tiny but non-zero is treated as degenerate (its grid-line crossing is lost / every piece gets the '
            'default share: NaN intersection, output arrays of different lengths, quantities counted more than once)')
@@ -2134,6 +2165,9 @@ def guard_verdict(W, D, N=None, nonneg=False):
         bd = pm('np.repeat(Y_, C_)', D)
         if bd is not None and same_value(x, bd['Y_']):
             return False, f'the guard tests `{show(x, 50)}` before it is expanded: it does not line up with the denominator `{show(D, 50)}`'
+        v = _guard_by_table(W, D, N, nonneg, n_nonneg, O, piece)
+        if v is not None and v[0] is not None:
+            return v if v[0] is False else (True, exact + ' (the mask is equivalent to the exact test on every kind of element)')
         return False, f'the guard of the division tests `{show(x, 50)}` instead of the denominator `{show(D, 50)}`'
     b, bd = pm_any(['np.repeat(X_ != 0, C_)', 'np.repeat(np.abs(X_) > 0, C_)'], W), pm('np.repeat(Y_, C_)', D)
     if b is not None and bd is not None and same_value(b['X_'], bd['Y_']) and same_value(b['C_'], bd['C_']):
@@ -2141,13 +2175,289 @@ def guard_verdict(W, D, N=None, nonneg=False):
     b = pm_any(['X_ > K_', 'X_ >= K_', 'np.abs(X_) > K_', 'np.abs(X_) >= K_', 'X_ < K_', 'X_ <= K_'], W)
     if b is not None and const_value(b['K_']) is not None:
         if not same_value(b['X_'], D):
+            v = _guard_by_table(W, D, N, nonneg, n_nonneg, O, piece)
+            if v is not None and v[0] is not None:
+                return v if v[0] is False else (True, exact + ' (the mask is equivalent to the exact test on every kind of element)')
             return False, f'the guard of the division tests `{show(b["X_"], 50)}` instead of the denominator `{show(D, 50)}`'
         if const_value(b['K_']) == 0:
             return False, (f'the guard `{show(W, 60)}` is not the test `{show(D, 40)} != 0`: denominators of one sign are treated as zero')
         return False, tol
-    if mentions(W, lambda x: isinstance(x, ast.Call) and call_name(x) in ('np.isclose', 'np.allclose', 'math.isclose')):
+    if mentions(W, lambda x: isinstance(x, ast.Call) and call_name(x) in ('np.isclose', 'np.allclose', 'math.isclose')) \
+            and not mentions(W, lambda x: isinstance(x, ast.BinOp) and isinstance(x.op, (ast.BitAnd, ast.BitOr, ast.BitXor))):
         return False, tol
+    # any other mask: decided by its truth table over the kinds of element there are (zero / tiny / ordinary values of
+    # the denominator and the numerator), against the exact test `denominator != 0`
+    v = _guard_by_table(W, D, N, nonneg, n_nonneg, O, piece)
+    if v is not None:
+        return v if v[0] is not True else (True, exact + ' (the mask is equivalent to the exact test on every kind of element)')
     return None, f'guard `{show(W, 60)}` is not recognised as a test of the denominator `{show(D, 40)}`'
+
+
+class _NoValue(Exception):
+    pass
+
+
+def _under_safe_denominator(D):
+    """X when D is X with its zeros replaced by a non-zero constant (np.where(X == 0, 1.0, X) and the like, the mask decided
+    by its truth table): wherever X is not zero D is X, so the guard that is needed is still exactly `X != 0`"""
+    for _ in range(3):
+        b, zero_arm = pm('np.where(Z_, K_, X_)', D), True
+        if b is None or const_value(b['K_']) is None:
+            b, zero_arm = pm('np.where(Z_, X_, K_)', D), False
+        if b is None or const_value(b['K_']) in (None, 0) or isinstance(const_value(b['K_']), bool):
+            return D
+        X = b['X_']
+        try:
+            for x in (-1.0, -_TINY, 0.0, _TINY, 1.0):
+                def leaf(y, inner, x=x):
+                    if same_value(y, X):
+                        return x
+                    raise _NoValue
+                z = _elementwise(b['Z_'], leaf)
+                if not isinstance(z, bool) or z != ((x == 0) == zero_arm):
+                    return D
+        except (_NoValue, ArithmeticError, TypeError):
+            return D
+        D = X
+    return D
+
+
+_TINY = 1e-30           # stands for a value that is not zero but below any tolerance a guard could be written with
+
+
+def _elementwise(e, leaf, inner=False, expands=None):
+    """the value of the element-wise expression `e` at one element of its arrays.  `leaf(x, inner)` gives the number the
+    sub-value `x` has at that element (raises _NoValue when it is none of the arrays in question); inside
+    np.repeat(E, C) with the count vector `expands` accepts, E is evaluated on the values *before* the expansion
+    (`inner`).  Forms outside the list raise _NoValue."""
+    def go(x):
+        return _elementwise(x, leaf, inner, expands)
+    try:
+        return leaf(e, inner)
+    except _NoValue:
+        pass
+    if isinstance(e, ast.Constant) and isinstance(e.value, (bool, int, float)):
+        return e.value
+    if isinstance(e, ast.Attribute) and norm(e) in ('np.inf', 'math.inf'):
+        return float('inf')
+    if isinstance(e, ast.UnaryOp):
+        v = go(e.operand)
+        if isinstance(e.op, (ast.Invert, ast.Not)):
+            if not isinstance(v, bool):
+                raise _NoValue
+            return not v
+        if isinstance(e.op, ast.USub):
+            return -v
+        if isinstance(e.op, ast.UAdd):
+            return v
+    if isinstance(e, ast.BinOp):
+        a, b = go(e.left), go(e.right)
+        if isinstance(e.op, (ast.BitAnd, ast.BitOr, ast.BitXor)):
+            if not (isinstance(a, bool) and isinstance(b, bool)):
+                raise _NoValue
+            return (a and b) if isinstance(e.op, ast.BitAnd) else (a or b) if isinstance(e.op, ast.BitOr) else (a != b)
+        if isinstance(e.op, ast.Add):
+            return a + b
+        if isinstance(e.op, ast.Sub):
+            return a - b
+        if isinstance(e.op, ast.Mult):
+            return a * b
+        if isinstance(e.op, ast.Div):
+            return a / b if b != 0 else (float('nan') if a == 0 or a != a else float('inf') * (1 if a > 0 else -1))
+        raise _NoValue
+    if isinstance(e, ast.BoolOp):
+        vals = [go(x) for x in e.values]
+        if not all(isinstance(x, bool) for x in vals):
+            raise _NoValue
+        return all(vals) if isinstance(e.op, ast.And) else any(vals)
+    if isinstance(e, ast.Compare):
+        ops = {ast.Eq: lambda a, b: a == b, ast.NotEq: lambda a, b: a != b, ast.Lt: lambda a, b: a < b, ast.LtE: lambda a, b: a <= b,
+               ast.Gt: lambda a, b: a > b, ast.GtE: lambda a, b: a >= b}
+        left = go(e.left)
+        for op, c in zip(e.ops, e.comparators):
+            right = go(c)
+            if type(op) not in ops:
+                raise _NoValue
+            if not ops[type(op)](left, right):
+                return False
+            left = right
+        return True
+    if isinstance(e, ast.Call):
+        nm = call_name(e)
+        kw = {k.arg: k.value for k in e.keywords}
+        if nm == 'np.repeat' and len(e.args) == 2 and not kw and expands is not None and expands(e.args[1]) and not inner:
+            return _elementwise(e.args[0], leaf, True, expands)
+        if nm in ('np.abs',) and len(e.args) == 1 and not kw:
+            return abs(go(e.args[0]))
+        if nm in ('np.asarray', 'np.array', 'np.asanyarray', 'bool', 'float') and len(e.args) == 1 and not kw:
+            return go(e.args[0])
+        two = {'np.logical_and': lambda a, b: bool(a) and bool(b), 'np.logical_or': lambda a, b: bool(a) or bool(b),
+               'np.logical_xor': lambda a, b: bool(a) != bool(b), 'np.greater': lambda a, b: a > b, 'np.less': lambda a, b: a < b,
+               'np.greater_equal': lambda a, b: a >= b, 'np.less_equal': lambda a, b: a <= b, 'np.equal': lambda a, b: a == b,
+               'np.minimum': min, 'np.maximum': max, 'np.multiply': lambda a, b: a * b, 'np.add': lambda a, b: a + b}
+        if nm in two and len(e.args) == 2 and not kw:
+            return two[nm](go(e.args[0]), go(e.args[1]))
+        if nm in ('np.isclose', 'math.isclose') and len(e.args) >= 2 and set(kw) <= {'rtol', 'atol', 'rel_tol', 'abs_tol'}:
+            a, b = go(e.args[0]), go(e.args[1])
+            np_ = nm == 'np.isclose'
+            rtol = go(e.args[2]) if len(e.args) > 2 else go(kw['rtol']) if 'rtol' in kw else go(kw['rel_tol']) if 'rel_tol' in kw else (1e-5 if np_ else 1e-9)
+            atol = go(e.args[3]) if len(e.args) > 3 else go(kw['atol']) if 'atol' in kw else go(kw['abs_tol']) if 'abs_tol' in kw else (1e-8 if np_ else 0.0)
+            return abs(a - b) <= (atol + rtol * abs(b) if np_ else max(rtol * max(abs(a), abs(b)), atol))
+        if nm == 'np.isfinite' and len(e.args) == 1:
+            return abs(go(e.args[0])) != float('inf')
+        if nm == 'np.isnan' and len(e.args) == 1:
+            go(e.args[0])
+            return False
+        if nm == 'np.where' and len(e.args) == 3 and not kw:
+            c = go(e.args[0])
+            if not isinstance(c, bool):
+                raise _NoValue
+            return go(e.args[1]) if c else go(e.args[2])
+        if nm in ('np.divide', 'np.true_divide') and len(e.args) == 2 and set(kw) <= {'out', 'where'}:
+            w = go(kw['where']) if 'where' in kw else True
+            if not isinstance(w, bool):
+                raise _NoValue
+            if w:
+                return go(ast.BinOp(left=e.args[0], op=ast.Div(), right=e.args[1]))
+            if 'out' not in kw:
+                raise _NoValue          # left uninitialised
+            return go(kw['out'])
+        if nm in ('np.ones_like', 'np.ones') and e.args and set(kw) <= {'dtype'}:
+            return 1.0
+        if nm in ('np.zeros_like', 'np.zeros') and e.args and set(kw) <= {'dtype'}:
+            return 0.0
+        if nm in ('np.full_like', 'np.full') and len(e.args) == 2 and set(kw) <= {'dtype'}:
+            return go(e.args[1])
+        if nm == 'np.nan_to_num' and len(e.args) == 1 and set(kw) <= {'nan', 'posinf', 'neginf', 'copy'}:
+            v = go(e.args[0])
+            if v != v:
+                return go(kw['nan']) if 'nan' in kw else 0.0
+            if abs(v) == float('inf'):
+                k = 'posinf' if v > 0 else 'neginf'
+                if k not in kw:
+                    raise _NoValue
+                return go(kw[k])
+            return v
+    raise _NoValue
+
+
+def _guard_by_table(W, D, N, nonneg, n_nonneg, O, piece):
+    """(ok, why) / None.  The mask `W` of `N / D where W else O`, evaluated on every kind of element: denominator and
+    numerator each zero, tiny or ordinary (and of either sign unless known to be lengths).  The division must run
+    exactly where D != 0.  Skipping it where the quotient would equal the default anyway (N == 0 with default zero)
+    changes nothing.  `piece`: N is a part of D, so states with N > D do not occur; a mask that differs from the exact
+    test only there is not decided."""
+    bd = pm('np.repeat(Y_, C_)', D)
+    lengths, signed = (0.0, _TINY, 1.0), (-1.0, -_TINY, 0.0, _TINY, 1.0)
+    uses_n = N is not None and mentions(W, lambda x: isinstance(x, ast.expr) and same_value(x, N))
+    default_zero = O is not None and (const_value(O) == 0 or pm_any(
+        ['np.zeros_like(X_)', 'np.zeros(X_)', 'np.zeros_like(X_, dtype=T_)', 'np.zeros(X_, dtype=T_)'], O) is not None)
+    diffs, unreal = [], []
+    try:
+        for d in (lengths if nonneg else signed):
+            for n in ((lengths if n_nonneg else signed) if uses_n else (1.0,)):
+                def leaf(x, inner, d=d, n=n):
+                    if not inner and same_value(x, D):
+                        return d
+                    if not inner and N is not None and same_value(x, N):
+                        return n
+                    if inner and bd is not None and same_value(x, bd['Y_']):
+                        return d
+                    raise _NoValue
+                w = _elementwise(W, leaf, expands=(lambda c: same_value(c, bd['C_'])) if bd is not None else None)
+                if not isinstance(w, bool):
+                    return None
+                if w == (d != 0) or (not w and d != 0 and n == 0 and default_zero and uses_n):
+                    continue
+                (unreal if piece and uses_n and abs(n) > abs(d) else diffs).append((d, n))
+    except (_NoValue, ArithmeticError, TypeError):
+        return None
+    if not diffs:
+        if unreal:
+            return None, (f'guard `{show(W, 60)}` differs from `{show(D, 40)} != 0` only where a piece would be longer than its whole '
+                          'segment: not decided')
+        return True, ''
+    by_zero = [s for s in diffs if s[0] == 0]
+    skipped = [s for s in diffs if s[0] != 0]
+    if by_zero:
+        return False, (f'the guard `{show(W, 60)}` is not the exact test `{show(D, 40)} != 0`: it lets the division run where the '
+                       'denominator is zero (0/0 = NaN, x/0 = inf)')
+    if all(abs(d) == _TINY for d, _ in skipped):
+        return False, (f'the guard `{show(W, 60)}` is not the exact test `{show(D, 40)} != 0`: with a tolerance, a segment whose '
+                       'denominator is tiny but non-zero is treated as degenerate (its grid-line crossing is lost / every piece gets the '
+                       'default share: NaN intersection, output arrays of different lengths, quantities counted more than once)')
+    if uses_n and all(n == 0 for _, n in skipped):
+        dflt = 'share 1' if O is not None and default_verdict(O)[0] is True else (f'the default `{show(O, 30)}`' if O is not None else 'the default')
+        what = 'pieces of zero length' if piece else 'elements whose numerator is zero'
+        return False, (f'the guard `{show(W, 70)}` is stricter than the exact test `{show(D, 40)} != 0`: it also skips the division where the '
+                       f'numerator `{show(N, 40)}` is zero, so {what} get {dflt} instead of 0'
+                       + (' - a zero-length piece of a normal segment (a way-point on a grid line, a path through a grid corner) carries the '
+                          'whole quantity of its segment again, which is then counted two or three times' if piece else ''))
+    d, n = skipped[0]
+    kind = {0.0: 'zero', _TINY: 'tiny', 1.0: 'ordinary', -_TINY: 'tiny negative', -1.0: 'negative'}
+    return False, (f'the guard `{show(W, 70)}` is not equivalent to the exact test `{show(D, 40)} != 0`: it skips the division where the '
+                   f'denominator is {kind[d]}' + (f' and the numerator {kind[n]}' if uses_n else '') + ', and the default is used there')
+
+
+def share_leaves(SH):
+    """(PIECE, WHOLE) when the share is written over exactly one array of piece lengths np.delete(<distances>, joints) and
+    one array of whole-segment lengths np.repeat(<distances>, count), else None"""
+    pieces, wholes = [], []
+    for x in ast.walk(SH):
+        if not isinstance(x, ast.Call):
+            continue
+        b = pm('np.delete(L_, J_)', x)
+        if b is not None and dist_args(b['L_']) is not None and not any(same(x, y) for y in pieces):
+            pieces.append(x)
+        b = pm('np.repeat(L_, C_)', x)
+        if b is not None and dist_args(b['L_']) is not None and not any(same(x, y) for y in wholes):
+            wholes.append(x)
+    return (pieces[0], wholes[0]) if len(pieces) == 1 and len(wholes) == 1 else None
+
+
+def share_by_table(SH, N, D):
+    """(ok, why) / None: the share `SH`, however it is spelt, evaluated on every kind of element (whole length zero / tiny /
+    ordinary, piece length zero / tiny / ordinary, the piece no longer than the whole) against what it must be:
+    piece / whole where the whole is not zero, one where it is (the one piece of a zero-length segment keeps everything)"""
+    bad = []
+    try:
+        for d in (0.0, _TINY, 1.0):
+            for n in (0.0, _TINY, 1.0):
+                if n > d:
+                    continue
+
+                def leaf(x, inner, d=d, n=n):
+                    if same_value(x, D):
+                        return d
+                    if same_value(x, N):
+                        return n
+                    raise _NoValue
+                got = _elementwise(SH, leaf)
+                if isinstance(got, bool) or not isinstance(got, (int, float)):
+                    return None
+                want = n / d if d != 0 else 1.0
+                if got != want and not abs(got - want) <= 1e-12 * abs(want):
+                    bad.append((d, n, got))
+    except (_NoValue, ArithmeticError, TypeError):
+        return None
+    if not bad:
+        return True, ('piece / whole wherever the whole segment has a length, one for the single piece of a zero-length segment '
+                      '(evaluated on every kind of element)')
+    num = lambda v: 'NaN' if v != v else f'{v:g}'
+    z = [b for b in bad if b[0] == 0]
+    if z:
+        return False, (f'a repeated point (zero-length segment) gets share {num(z[0][2])} instead of 1: its integrated quantity is lost from '
+                       '(or miscounted in) the gridded total')
+    p0 = [b for b in bad if b[1] == 0]
+    if p0 and len(p0) == len(bad):
+        return False, (f'pieces of zero length get share {num(p0[0][2])} instead of 0: a zero-length piece of a normal segment (a way-point '
+                       'on a grid line, a path through a grid corner) carries the quantity of its segment again, which is then counted two '
+                       'or three times')
+    if all(b[0] == _TINY for b in bad):
+        return False, ('a segment whose length is tiny but not zero is treated as degenerate: every piece of it gets share '
+                       f'{num(bad[0][2])} and its quantity is counted more than once')
+    d, n, got = bad[0]
+    return False, f'the share of a piece of length {num(n)} in a segment of length {num(d)} comes out as {num(got)}, not {num(n / d)}'
 
 
 def default_verdict(O):
@@ -2178,6 +2488,9 @@ def split_share(SH):
     b = pm_any(['np.where(W_, N_ / D_, O_)', 'np.where(W_, np.divide(N_, D_), O_)'], SH)
     if b is not None:
         return b['N_'], b['D_'], b['O_'], b['W_']
+    b = pm_any(['np.where(NW_, O_, N_ / D_)', 'np.where(NW_, O_, np.divide(N_, D_))'], SH)
+    if b is not None:
+        return b['N_'], b['D_'], b['O_'], canon(ast.UnaryOp(op=ast.Invert(), operand=b['NW_']))
     b = pm_any(['N_ / D_', 'np.divide(N_, D_)'], SH)
     if b is not None:
         return 'unguarded', b['N_'], b['D_']
@@ -2266,6 +2579,13 @@ def rule_share(ctx, m):
                      (okc, ('number of touched cells per segment: ' + whatc) if okc else
                       f'the integrated values are repeated by {whatc}, not by the number of cells each segment touches'), line=line)
             parts = split_share(SH)
+            lv = share_leaves(SH) if parts is None else None
+            if parts is None and lv is not None:
+                # some other spelling over the same two length arrays: the share is decided as a function of its elements
+                v = share_by_table(SH, *lv)
+                if v is not None:
+                    pend.put('C04-R2', fn, f'share = {show(SH, 70, top=True)}', v, line=line)
+                    parts = (lv[0], lv[1], None, None)
             if parts is None:
                 pend.put('C04-R2', fn, 'share', (None, f'share `{show(SH, 90)}` is not a guarded quotient (np.divide(out=, where=) / np.where)'))
                 continue
@@ -2275,8 +2595,20 @@ def rule_share(ctx, m):
                        'its whole quantity', line=line)
                 continue
             N, D, O, W = parts
-            pend.put('C04-R2', fn, f'division guarded by where={show(W, 60)}', guard_verdict(W, D, N, nonneg=True), line=line)
-            pend.put('C04-R2', fn, f'default share {show(O, 50)}', default_verdict(O), line=line)
+            if W is not None:
+                gv, dv = guard_verdict(W, D, N, nonneg=True, n_nonneg=True, O=O, piece=True), default_verdict(O)
+                if gv[0] is not True or dv[0] is not True:
+                    # the parts are not the plain ones: what counts is the share as a function of its elements
+                    lv = share_leaves(SH)
+                    tv = share_by_table(SH, *lv) if lv is not None else None
+                    if tv is not None and tv[0] is True:
+                        gv = dv = tv
+                    elif tv is not None and gv[0] is not False and dv[0] is not False:
+                        gv = tv
+                        dv = (True, 'see the guard') if dv[0] is None else dv
+                pend.put('C04-R2', fn, f'division guarded by where={show(W, 60)}', gv, line=line)
+                pend.put('C04-R2', fn, f'default share {show(O, 50)}', dv, line=line)
+                D = _under_safe_denominator(D)
             # ---- denominator: whole-segment length between consecutive way-points, expanded by the same count vector
             bd = pm('np.repeat(L_, C2_)', D)
             if bd is None:
